@@ -26,7 +26,7 @@ PQuick == [ ModHi |-> 101, Even |-> {2, 4, 6, 8, 10, 12, 16}, ELo |-> -40, EHi |
             PHi |-> 400, NqAll |-> 120, RootThm |-> 200,
             NHi |-> 60, NThm |-> 200,
             Ip |-> { <<2, 1>>, <<2, 2>>, <<2, 3>>, <<3, 1>>, <<3, 2>>, <<3, 3>>, <<3, 4>>,
-                     <<5, 1>>, <<5, 2>>, <<5, 3>>, <<5, 4>>, <<7, 1>>, <<7, 2>>, <<7, 3>> },
+                     <<5, 1>>, <<5, 2>>, <<5, 3>>, <<7, 1>>, <<7, 2>> },
             IpColl |-> 3,
             BigInit |-> {<<0, 0, 0>>, <<6, 4, 0>>, <<1, 0, 7>>}, BigDeep |-> {<<0, 0, 0>>}, BigDepth |-> 2, BigU |-> {0, 1, 7}, BigUi |-> {0, 3}, BigMax |-> 100000 ]
 PThorough == [ ModHi |-> 257, Even |-> {2, 4, 6, 8, 10, 12, 16, 18, 20, 24, 30, 32, 64, 100, 128},
@@ -46,6 +46,7 @@ PThorough == [ ModHi |-> 257, Even |-> {2, 4, 6, 8, 10, 12, 16, 18, 20, 24, 30, 
 Moduli == {m \in 3..P.ModHi : m % 2 = 1} \cup P.Even
 ERange == P.ELo..P.EHi
 NE == P.EHi - P.ELo + 1
+EBitsMax == Bits(Max2(-P.ELo, P.EHi))      \* no exponent of the family pow is longer than this
 OddPrimes(hi) == PrimesIn(3, hi - 1)
 
 --------------------------------------------------------------------------
@@ -124,7 +125,7 @@ PowLine(m, b) ==
       rowN == IF cop THEN PowRow(InvM(b, m), m, -P.ELo) ELSE <<>>
       V(e) == IF e >= 0 THEN rowP[e + 1] ELSE IF cop THEN rowN[(-e) + 1] ELSE -1
       E(i) == P.ELo + i - 1
-      wrong == IF m > 2 THEN <<(b + 1) % m, b + m, (b + 2) % m>> ELSE <<(b + 1) % m, b + m>>
+      wrong == <<(b + 1) % m, b + m>>       \* another residue; the same residue as another integer
       nonunits == (0..(m - 1)) \ Units(m)
       u1 == CHOOSE u \in Units(m) : TRUE
   IN [ f |-> "pow", m |-> m, b |-> b, e0 |-> P.ELo,
@@ -132,9 +133,9 @@ PowLine(m, b) ==
        c |-> [i \in 1..NE |-> PowClassC(cop, E(i))],
        co |-> [i \in 1..NE |-> IF m % 2 = 1 THEN PowClassC(cop, E(i))
                                ELSE IF PowClassC(cop, E(i)) = REFUSE THEN REFUSE ELSE MAY],
-       reps |-> IF m <= P.RepMax THEN <<b, b - m, b + m, b - 2 * m>> ELSE <<b>>,
+       reps |-> IF m <= P.RepMax THEN <<b, b - m, b + m>> ELSE <<b>>,
        wrong |-> wrong,
-       cw |-> [w \in 1..Len(wrong) |-> [i \in 1..NE |-> TabClass(wrong[w], b, E(i), Bits(Abs(E(i))), m, P.T)]],
+       cw |-> [w \in 1..Len(wrong) |-> [i \in 1..NE |-> TabClassC(wrong[w], b, PowClassC(cop, E(i)), EBitsMax, P.T)]],
        \* blinding coins to dictate: every unit, and rejected draws (0 / a non-unit) followed by a unit;
        \* in each sequence all but the last entry are non-units, so exactly Len draws are consumed
        coins |-> IF m <= P.CoinMax THEN {<<r>> : r \in Units(m)} \cup {<<x, u1>> : x \in nonunits} \cup {<<0, 0, u1>>}
@@ -148,7 +149,8 @@ ThPow(m, b) ==
      /\ \A e \in 0..P.EHi : PowSq(b, e, m) = rowP[e + 1]                          \* halving = defining recursion
      /\ \A e \in {0, 1, 2, 3, half, P.EHi} : PowNat(b, e, m) = rowP[e + 1]
      /\ \A e1, e2 \in 0..half : rowP[e1 + e2 + 1] = (rowP[e1 + 1] * rowP[e2 + 1]) % m    \* b^(x+y) = b^x b^y
-     /\ cop => /\ \A e \in 1..(-P.ELo) : (PowDef(b, -e, m) * rowP[e + 1]) % m = 1 % m     \* b^-e b^e = 1
+     /\ cop => /\ \A e \in {1, 2, 3, 7, 16, -P.ELo} : (PowDef(b, -e, m) * rowP[e + 1]) % m = 1 % m     \* b^-e b^e = 1
+               /\ LET rowN == PowRow(InvM(b, m), m, -P.ELo) IN \A e \in 0..(-P.ELo) : (rowN[e + 1] * rowP[e + 1]) % m = 1 % m
                /\ \A e \in {P.ELo, -17, -8, -3, -2, -1, 0, 1, 2, 3, 8, 17, P.EHi} : Pow(b, e, m) = PowDef(b, e, m)
                /\ PowSq(b, Cardinality(Units(m)), m) = 1 % m                      \* Euler
      /\ (m <= P.CoinMax /\ cop) =>                                                \* blinding is invisible
@@ -246,7 +248,7 @@ ThIp(q, a) ==
       polys == [1..n -> 0..(q - 1)]
   IN DistinctMod(a, q) =>
        /\ Cardinality({[j \in 1..n |-> Eval(f, a[j], q)] : f \in polys}) = Cardinality(polys)
-       /\ \A f \in polys : Interpolates(f, a, [j \in 1..n |-> Eval(f, a[j], q)], q) /\ Reduced(f, q)
+       /\ n <= 2 => \A f \in polys : Interpolates(f, a, [j \in 1..n |-> Eval(f, a[j], q)], q) /\ Reduced(f, q)
 
 --------------------------------------------------------------------------
 Line == CASE st.k = "pow"  -> PowLine(st.m, st.b)
